@@ -2,6 +2,7 @@
 import ast
 
 from ..loader import AnalysisError, norm_stmt
+from ..small import cond_defaults
 from .C16 import signed_factors
 
 GEO = "tools/geometric.py"
@@ -99,15 +100,15 @@ def pair_agreement(ctx, rule="R13.2"):
     r1 = [s.value for s in g2c.body if isinstance(s, ast.Return)]
     r2 = [s.value for s in c2g.body if isinstance(s, ast.Return)]
     ok = ok and len(r1) == 1 and len(r2) == 1 and signed_factors(r1[0])[1][0] == "diameter" and signed_factors(r2[0])[1][0] == "diameter"
-    ok = ok and "np.divide(dist, diameter)" in ast.unparse(r1[0]) and "np.divide(dist, diameter)" in ast.unparse(r2[0])
+    ok = ok and "dist / diameter" in ast.unparse(r1[0]) and "dist / diameter" in ast.unparse(r2[0])
     ctx.check(ok, rule, GEO + "::great_circle_to_chordal/chordal_to_great_circle", "D sin(d / D) and D arcsin(d / D) with the same diameter D = 2 radius: mutually inverse", "chordal-pair")
 
 
 def forcing_sites(ctx, rule="R13.3"):
     prog = ctx.prog
     sd = prog.func(TOOLS, "set_dim")
-    forced = [norm_stmt(s) for s in sd.body if isinstance(s, ast.Assign) and ast.unparse(s.targets[0]) == "dim"]
-    ctx.check("dim = 3 + int(model.temporal) if model.latlon else dim" in forced, rule, TOOLS + "::set_dim", "lat-lon models get dim 3 (+1 with time)", "dim")
+    forced = [(t, ast.unparse(v)) for t, v in cond_defaults(sd.body, "dim")]
+    ctx.check(("model.latlon", "3 + int(model.temporal)") in forced, rule, TOOLS + "::set_dim", "lat-lon models get dim 3 (+1 with time)", "dim")
     sl = prog.func(TOOLS, "set_len_anis")
     ifs = [s for s in sl.body if isinstance(s, ast.If) and ast.unparse(s.test) == "latlon"]
     ok = len(ifs) == 1 and [norm_stmt(x) for x in ifs[0].body] == ["out_anis[:2] = 1.0"]
@@ -142,12 +143,11 @@ def forcing_sites(ctx, rule="R13.3"):
     del idx
     sb = prog.func("variogram/binning.py", "standard_bins")
     def conv_iff_latlon(var, func):
-        for s in ast.walk(sb):
-            if isinstance(s, ast.Assign) and ast.unparse(s.targets[0]) == var and isinstance(s.value, ast.IfExp):
-                v = s.value
-                if (ast.unparse(v.test) == "latlon" and isinstance(v.body, ast.Call) and getattr(v.body.func, "id", "") == func
-                        and v.body.args and ast.unparse(v.body.args[0]) == var and ast.unparse(v.orelse) == var):
-                    return True
+        for blk in ast.walk(sb):
+            if isinstance(getattr(blk, "body", None), list):
+                for t, v in cond_defaults(blk.body, var):
+                    if t == "latlon" and isinstance(v, ast.Call) and getattr(v.func, "id", "") == func and v.args and ast.unparse(v.args[0]) == var:
+                        return True
         return False
 
     txt = [norm_stmt(s) for s in ast.walk(sb) if isinstance(s, ast.Assign)]
